@@ -92,6 +92,7 @@ class BudgetExceeded(BaseException):
 
 _TOOL = 4
 _mon = sys.monitoring
+_HARNESS_DIR = __file__.rsplit("/", 1)[0] + "/"
 
 
 class StepMeter:
@@ -116,6 +117,8 @@ class StepMeter:
 
     @classmethod
     def _cb(cls, code, line):
+        if code.co_filename.startswith(_HARNESS_DIR):
+            return _mon.DISABLE  # harness frames (storage fakes) are not the reader's work
         cls.count += 1
         if cls.count > cls.limit and cls._over():
             raise BudgetExceeded(f"step budget exceeded at {code.co_filename}:{line}")
